@@ -1,4 +1,4 @@
-import Dmn.Model.Canvas
+import Dmn.Model.CanvasStages
 
 /-!
 # The first stage of the scanner inverts the last stage of `draw`
@@ -40,10 +40,6 @@ theorem splitLines_joinLines (lines : List Text) (hne : lines ≠ []) (h : ∀ x
   | nil => exact absurd rfl hne
   | cons l ls => simpa [splitLines] using splitLines_go_join ls l [] h
 
-/-- the position a character of the text occupies in the canvas: the text layer holds the
-character, the other layers a blank -/
-def textPx (ch : Char) : Px := ⟨ch, charWhite, charWhite, charWhite⟩
-
 theorem pushLine_eq (h : Nat) : ∀ (line : List Char) (content : Content), h - 1 < content.size →
     pushLine content h line = ok (content.modify (h - 1) (fun r => r ++ (line.map textPx).toArray))
   | [], content, _ => by
@@ -63,9 +59,6 @@ theorem pushLine_eq (h : Nat) : ∀ (line : List Char) (content : Content), h - 
     · intro i h1 h2
       simp only [Array.getElem_modify]
       split <;> simp [textPx]
-
-/-- the rows of the canvas that hold the given lines -/
-def rowsOf (ls : List Text) : Content := (ls.map (fun l => (l.map textPx).toArray)).toArray
 
 theorem addRow_eq (A : Content) (l : Text) :
     ((A.push #[]).push #[]).modify (A.size + 1 - 1) (fun r => r ++ (l.map textPx).toArray) =
@@ -104,10 +97,6 @@ theorem rowsOf_snoc (done : List Text) (l : Text) :
   simp [rowsOf]
 
 theorem rowsOf_size (ls : List Text) : (rowsOf ls).size = ls.length := by simp [rowsOf]
-
-/-- the running maximum of `scan`: `if count > width { width = count }` -/
-def maxLenFrom (w : Nat) (ls : List Text) : Nat :=
-  ls.foldl (fun m l => if l.length > m then l.length else m) w
 
 theorem le_maxLenFrom : ∀ (ls : List Text) (w : Nat), w ≤ maxLenFrom w ls
   | [], w => Nat.le_refl w
@@ -160,9 +149,6 @@ structure DrawingLines (lines : List Text) : Prop where
   line : ∀ l ∈ lines, l ≠ [] ∧ '\n' ∉ l ∧ trim l = l
   corner : lines.head?.bind List.head? = some '┌'
   last : ∀ l ∈ lines.dropLast, l.getLast? ≠ some '┘'
-
-/-- the width of the canvas: the length of the longest line -/
-def maxLen (lines : List Text) : Nat := maxLenFrom 0 lines
 
 /-- **The canvas of a drawing.** The content `scan` builds from the text of a drawing is the
 drawing itself in the text layer (blank in the other layers), every line completed with
